@@ -19,7 +19,7 @@ RULE = ("(1) uniform-regime files in each of 48 dialect points (four key/value s
         "-> reference weighted vote (skipped when the checklines and checklines+1 window conventions disagree); "
         "(4) supplied dialects (trailing/repeated/order variations) used verbatim for reporting and printing; "
         "non-trivial = >= 3 lines (1,4) / both values present in the window (3); distinct by file text + checklines")
-REQUIRED = ["dialect compared after an update written in another spelling", "uniform files with a bare ';' inside quoted values", "uniform files: dialect compared", "infer_dialect strings compared", "routing observed: gtf", "routing observed: gff",
+REQUIRED = ["repeated keys whose earlier occurrences are empty: dialects compared", "dialect compared after an update written in another spelling", "uniform files with a bare ';' inside quoted values", "uniform files: dialect compared", "infer_dialect strings compared", "routing observed: gtf", "routing observed: gff",
             "mixtures decided by vote", "mixtures with exact tie", "supplied dialects compared", "re-ordered feature lists compared",
             "supplied format decides the import semantics (iterator data)"]
 ASSUMPTIONS = [
@@ -59,6 +59,8 @@ def execute(ctx, case):
             mixture(ctx, case)
         elif kind == "after_update":
             after_update(ctx, case)
+        elif kind == "repeated_empty":
+            repeated_empty(ctx, case)
         elif kind == "supplied":
             supplied(ctx, case)
         elif kind == "string":
@@ -203,6 +205,30 @@ def after_update(ctx, case):
         for p in (dbfn, dbfn + ".bak"):
             if os.path.exists(p):
                 os.unlink(p)
+
+
+def repeated_empty(ctx, case):
+    """A key that occurs more than once IS the repeated-keys spelling, also when its earlier occurrences carry no value
+    (tag ""; tag "basic" - which is what a repeated-keys dialect writes for ['', 'basic'] - or Note;Note=curated)."""
+    from gffutils import helpers
+    from gffutils.feature import feature_from_line
+    from gffutils.iterators import DataIterator
+
+    a = case["attrs_text"]
+    try:
+        d1 = helpers.infer_dialect(a)
+        f = feature_from_line("chr1\t.\tgene\t1\t2\t.\t+\t.\t" + a)
+        text = "".join("chr1\t.\tgene\t%d\t%d\t.\t+\t.\t%s\n" % (10 * i + 1, 10 * i + 5, a) for i in range(case["n"]))
+        it = DataIterator(text, from_string=True, checklines=case["checklines"])
+        list(it)
+    except Exception as ex:
+        ctx.violation(case, {"why": "inference raised %r" % (ex,), "attributes": a})
+        return
+    ctx.mon("repeated keys whose earlier occurrences are empty: dialects compared")
+    got = {"infer_dialect": d1["repeated keys"], "feature_from_line": f.dialect["repeated keys"], "DataIterator": it.dialect["repeated keys"]}
+    if not all(v is True for v in got.values()):
+        ctx.violation(case, {"why": "a key written several times (earlier occurrences without a value) is not reported as repeated keys",
+                             "attributes": a, "repeated keys as reported": got})
 
 
 def routing(ctx, case):
@@ -523,6 +549,15 @@ def run(ctx):
         for rec in recs[:3]:
             c2 = {"kind": "string", "D": D, "attrs": rec["attrs"]}
             execute(ctx, c2)
+    # (1a) repeated keys whose first occurrences are empty
+    if ctx.shard == 0:
+        for a in ('gene_id "g"; tag ""; tag "basic";', 'gene_id "g"; tag ""; tag ""; tag "basic"', 'gene_id "g" ; tag "" ; tag "basic"',
+                  "ID=m1;Note;Note=curated", "ID=m1;Note=;Note=curated", "ID=m1; Note=; Note=curated;", 'gene_id "g"; tag; tag "x"',
+                  'ID="m1";Note="";Note="curated"', "ID m1;Note;Note curated"):
+            for n, ck in ((1, 10), (3, 0), (3, 1), (12, 10)):
+                case = {"kind": "repeated_empty", "attrs_text": a, "n": n, "checklines": ck}
+                execute(ctx, case)
+                ctx.case(("repeated_empty", a, n, ck), True, sample=case, cls="repeated key, empty first occurrence")
     # (1b) the reported dialect survives updates written in another spelling of the same format family
     for _ in range(ctx.budget(150, 12000)):
         D = rng.choice(pts)
